@@ -799,16 +799,26 @@ pub fn check_c26(case: &Case, p: &Parsed, trace: bool) -> C26Outcome {
                 );
             }
         }
-        // fault-free configuration: error paths must equal the model's exactly
-        if case.fault_permille == 0 && case.overrides.values().all(world::outcome_is_plain) {
+        // The property says the response *equals* the reference's: the multiset of error paths
+        // must be the one of model M, i.e. with apollo-compiler's cancellation (stop a selection
+        // set / a list at the first propagating failure). Checks 4 and 5 above say *why* a
+        // difference is wrong when it is outside what the spec allows; this one pins the rest.
+        {
             let mut a = real_errs.clone();
             let mut b = m.errors.clone();
             a.sort();
             b.sort();
             if a != b {
+                let extra: Vec<&String> = a.iter().filter(|e| !b.contains(e)).collect();
+                let missing: Vec<&String> = b.iter().filter(|e| !a.contains(e)).collect();
                 return viol(
-                    "fault_free_errors_differ",
-                    format!("real {a:?} vs reference {b:?}"),
+                    "errors_differ_from_reference",
+                    format!(
+                        "{} | executor reported {} errors, reference {}: not in reference {extra:?}, not reported {missing:?}",
+                        if a.len() > b.len() { "more errors than the reference" } else if a.len() < b.len() { "fewer errors than the reference" } else { "different error paths" },
+                        a.len(),
+                        b.len()
+                    ),
                 );
             }
         }
